@@ -331,6 +331,9 @@ def r5_unknown(chk, prog):
     f = prog.one('celma::prog_args::Handler', 'processArg')
     cfg = f.cfg
     lookups = [c for c in f.calls_to('ArgumentContainer::findArg') if field_name(object_of(c)) == 'mArguments']
+    # the lookup that yields the argument to handle is the last one (an earlier one only consults the container
+    # when a sub-group key was abbreviated)
+    lookups = sorted(lookups, key=lambda c: (c.get('l', 0), c.get('id', 0)))[-1:]
     chk.require(len(lookups) == 1, 'processArg: lookup in mArguments not found')
     mode_edges = set()
     for bid, cond in cfg.cond_blocks():
